@@ -57,7 +57,11 @@ def check_program(env, prog, label, ndata):
         return
     cxd = prog.ctx(additional_properties=True)
     values = []
-    from vf.checks.c06 import has_duplicates
+    from vf.checks.c06 import has_duplicates as _hd, has_py_duplicates
+
+    def has_duplicates(d):
+        return _hd(d) or has_py_duplicates(d)
+
     from vf.spec import Coll
     has_sets = any(isinstance(n, Coll) and n.c in ("set", "absset", "mutset", "frozenset") for n in t.walk())
     for d in gen_data.valid_data(t, cxd, rng, ndata):
